@@ -163,6 +163,55 @@ class Activated(nn.Module):
         return torch.sigmoid(self.c1(F.relu(self.c0(x))))
 
 
+class ConcatOutput(nn.Module):
+    """the network output IS a channel concatenation: both operands are tied to the output width"""
+    def __init__(self):
+        super().__init__()
+        self.c0 = nn.Conv1d(2, 2, 1)
+        self.c1 = nn.Conv1d(2, 2, 1)
+        self.c2 = nn.Conv1d(2, 1, 1)
+
+    def forward(self, x):
+        h = F.relu(self.c0(x))
+        return torch.cat((self.c1(h), self.c2(h)), 1)
+
+
+class AddExcluded(nn.Module):
+    """a searchable layer summed with a layer the user excluded from the search: the sum fixes the width of the searchable one"""
+    def __init__(self):
+        super().__init__()
+        self.c0 = nn.Conv1d(2, 2, 1)
+        self.f1 = nn.Conv1d(2, 2, 1)
+        self.head = nn.Conv1d(2, 1, 1)
+
+    def forward(self, x):
+        return self.head(F.relu(self.c0(x)) + F.relu(self.f1(x)))
+
+
+class ExcludedConsumer(nn.Module):
+    """a searchable layer feeding a layer the user excluded from the search: the excluded layer keeps its input width"""
+    def __init__(self):
+        super().__init__()
+        self.c0 = nn.Conv1d(2, 2, 1)
+        self.f1 = nn.Conv1d(2, 2, 1)
+        self.head = nn.Conv1d(2, 1, 1)
+
+    def forward(self, x):
+        return self.head(self.f1(F.relu(self.c0(x))))
+
+
+class TemporalSymmetric(nn.Module):
+    """temporal convolution with built-in symmetric padding (NOT the causal padding the documentation prescribes)"""
+    def __init__(self):
+        super().__init__()
+        self.c0 = nn.Conv1d(1, 2, 1)
+        self.tc = nn.Conv1d(2, 2, 3, padding=1)
+        self.head = nn.Conv1d(2, 1, 1)
+
+    def forward(self, x):
+        return self.head(self.tc(self.c0(x)))
+
+
 #        class, input shape, {layer: (masker kind, group)} , {layer: producer of its input features}
 NETS = {
     'chain': (Chain, (1, 2, 3), {'c0': 'free', 'c1': 'free', 'fc': 'frozen'}, {'c0': None, 'c1': ['c0'], 'fc': ('flatten', 'c1', 2)}),
@@ -177,10 +226,18 @@ NETS = {
     'user-placed': (UserPlaced, (1, 2, 2), {'c0': 'free'}, {'c0': None, 'c1': ['c0']}),
     'temporal': (Temporal, (1, 1, 4), {'c0': 'free', 'tc': 'free', 'head': 'frozen'}, {'c0': None, 'tc': ['c0'], 'head': ['tc']}),
 }
+# architectures reported by seeding agents as failures of the UNCHANGED tree (round 4); served by their own harness entries (see HARNESSES)
+EXTRA_NETS = {
+    'concat-output': (ConcatOutput, (1, 2, 2), {'c0': 'free', 'c1': 'frozen', 'c2': 'frozen'}, {'c0': None, 'c1': ['c0'], 'c2': ['c0']}),
+    'add-excluded': (AddExcluded, (1, 2, 2), {'c0': 'frozen', 'head': 'frozen'}, {'c0': None, 'head': [2]}),
+    'excluded-consumer': (ExcludedConsumer, (1, 2, 2), {'c0': 'frozen', 'head': 'frozen'}, {'c0': None, 'head': [2]}),
+    'temporal-symmetric': (TemporalSymmetric, (1, 1, 4), {'c0': 'free', 'tc': 'free', 'head': 'frozen'}, {'c0': None, 'tc': ['c0'], 'head': ['tc']}),
+}
+NETS.update(EXTRA_NETS)
 
 
-CAUSALLY_PADDED = {'temporal': ('tc',)}
-PIT_KWARGS = {'concat-fixed': {'exclude_names': ('f0', 'f1')}}
+CAUSALLY_PADDED = {'temporal': ('tc',), 'temporal-symmetric': ('tc',)}       # layers whose receptive-field / dilation masks are symbolic
+PIT_KWARGS = {'concat-fixed': {'exclude_names': ('f0', 'f1')}, 'add-excluded': {'exclude_names': ('f1',)}, 'excluded-consumer': {'exclude_names': ('f1',)}}
 
 
 def _symbolic_state(H, net):
@@ -300,7 +357,8 @@ def h_search_export(H, net):
     y_exp = exported(x)
     H.observe('y_nas', y_nas)
     H.observe('y_exp', y_exp)
-    H.ensure('export:exported-network-computes-the-function-of-the-masked-model', H.eq(y_nas, y_exp))
+    H.ensure('[C08] export:exported-network-returns-outputs-of-the-original-shape', H.shape(y_exp) == H.shape(y_nas))
+    H.ensure('export:exported-network-computes-the-function-of-the-masked-model', H.shape(y_exp) == H.shape(y_nas) and H.eq(y_nas, y_exp))
     for n, m in exported.named_modules():
         if H.type_name(m) in ('Conv1d', 'Conv2d', 'Linear'):
             out_w = H.shape(m.weight)[0]
@@ -347,6 +405,7 @@ def h_search_export(H, net):
 PROPERTY = {}
 
 _B = (True, False)
+_MAIN = [n for n in NETS if n not in EXTRA_NETS]
 _P = 'plinio/methods/pit/'
 _FUNCS = [_P + 'pit.py::PIT.__init__', _P + 'pit.py::PIT.export', _P + 'graph.py::convert', _P + 'graph.py::PITTracer.is_leaf_module', _P + 'graph.py::convert_layers',
           _P + 'graph.py::autoimport_node', _P + 'graph.py::export_node', _P + 'graph.py::build_shared_features_map', _P + 'graph.py::fuse_pit_modules',
@@ -358,8 +417,18 @@ HARNESSES = [
          quick=[dict(net=n, training=t, fold_bn=f) for n, t, f in (('chain', True, False), ('chain', False, True), ('residual', True, False), ('residual-input', False, False),
                                                                    ('concat', True, False), ('depthwise2d', False, False), ('activated', True, False), ('temporal', True, False), ('concat-fixed', False, False), ('concat-time', True, False), ('depthwise1d', False, False))] +
                [dict(net='user-placed', training=False, fold_bn=f, autoconvert=a) for f in _B for a in _B],
-         thorough=[dict(net=n, training=t, fold_bn=f) for n in NETS for t in _B for f in _B] +
+         thorough=[dict(net=n, training=t, fold_bn=f) for n in _MAIN for t in _B for f in _B] +
                   [dict(net='user-placed', training=t, fold_bn=f, autoconvert=False) for f in _B for t in _B], timeout=120),
     dict(name='whole-search-export', bounded='enumerated architectures (contracts/whole_pit.py NETS); weights, statistics, masks, inputs symbolic', fn='h_search_export', property=['C01', 'C09', 'C08', 'C18', 'C04'], functions=_FUNCS,
-         quick=[dict(net=n) for n in NETS], thorough=[dict(net=n) for n in NETS], timeout=120),
+         quick=[dict(net=n) for n in _MAIN], thorough=[dict(net=n) for n in _MAIN], timeout=120),
+    # architectures on which the unchanged tree fails (known findings, reported by seeding agents): own entries so that each is charged to the property whose clause it breaks
+    dict(name='whole-import-output-tied', bounded='enumerated architectures (EXTRA_NETS)', fn='h_import', property=['C08'], functions=_FUNCS,
+         quick=[dict(net='concat-output', training=False, fold_bn=False)], thorough=[dict(net='concat-output', training=t, fold_bn=False) for t in _B], timeout=120),
+    dict(name='whole-search-export-output-shape', bounded='enumerated architectures (EXTRA_NETS)', fn='h_search_export', property=['C08'], functions=_FUNCS,
+         quick=[dict(net='concat-output'), dict(net='temporal-symmetric')], thorough=[dict(net='concat-output'), dict(net='temporal-symmetric')], timeout=120),
+    dict(name='whole-import-excluded', bounded='enumerated architectures (EXTRA_NETS)', fn='h_import', property=['C09'], functions=_FUNCS,
+         quick=[dict(net=n, training=False, fold_bn=False) for n in ('add-excluded', 'excluded-consumer')],
+         thorough=[dict(net=n, training=False, fold_bn=False) for n in ('add-excluded', 'excluded-consumer')], timeout=120),
+    dict(name='whole-search-export-excluded', bounded='enumerated architectures (EXTRA_NETS)', fn='h_search_export', property=['C09'], functions=_FUNCS,
+         quick=[dict(net=n) for n in ('add-excluded', 'excluded-consumer')], thorough=[dict(net=n) for n in ('add-excluded', 'excluded-consumer')], timeout=120),
 ]
